@@ -11,7 +11,8 @@ const (
 	nPair   = 10 * 10 * 4   // break-after × break-before × nesting variant
 	nDeco   = 8 * 4 * 22    // block arrangement × border/padding split × page height
 	nTables = nOW + nPair + nDeco
-	nUnit   = 16 * 10 * 3 // margin/padding form × unit × sheet shape; these cases come last (after the random ones)
+	nUnit   = 16 * 10 * 3       // margin/padding form × unit × sheet shape; these cases come last (after the random ones)
+	nDim    = 3 * 4 * 5 * 5 * 2 // declared axis × spelling of the dimension × first margin × second margin × sheet; after the unit table
 )
 
 func nRandom(tier string) int {
@@ -31,6 +32,8 @@ func genCase(r *rand.Rand, i int, tier string) any {
 		return genPair(i - nOW)
 	case i < nTables:
 		return genDeco(i - nOW - nPair)
+	case i >= nTables+nRandom(tier)+nUnit:
+		return genDim(i - nTables - nRandom(tier) - nUnit)
 	case i >= nTables+nRandom(tier):
 		return genUnit(i - nTables - nRandom(tier))
 	}
@@ -195,6 +198,116 @@ func genUnit(j int) In {
 	}
 	in.buildDoc(noLegacy)
 	return in
+}
+
+// genDim: width / height of the page box (css-page-3 §5.3).  A second @page rule declares the width,
+// the height or both — in px, as a percentage of the sheet, in pt, or `auto` — and the two margins
+// of each declared axis (left & right, top & bottom) each as 0, a length, a percentage, `auto`, or not
+// at all (the 20px of the base rule), on a portrait and a landscape sheet.  With a declared dimension
+// the auto margins take what is left (both: centred; one: the rest), without auto margin the values
+// are over-constrained and all used as declared; with an auto dimension auto margins are 0.  Ten 50px
+// blocks make three or four pages.
+func genDim(j int) In {
+	axis := j % 3 // 0 width, 1 height, 2 both
+	spell := (j / 3) % 4
+	ma := (j / 12) % 5
+	mb := (j / 60) % 5
+	sheet := [][2]int{{300, 420}, {420, 300}}[j/300]
+	in := In{Kind: "dim-table", FS: 10}
+	wTok := []string{"160px", "40%", "90pt", "auto"}[spell]
+	hTok := []string{"200px", "50%", "120pt", "auto"}[spell]
+	mTok := func(k int, vertical bool) (string, bool) {
+		switch k {
+		case 0:
+			return "0", true
+		case 1:
+			if vertical {
+				return "28px", true
+			}
+			return "12px", true
+		case 2:
+			return "10%", true
+		case 3:
+			return "auto", true
+		}
+		return "", false // not declared: the base rule's 20px
+	}
+	var ds []Decl
+	add := func(prop string, k int, vertical bool) {
+		if t, ok := mTok(k, vertical); ok {
+			ds = append(ds, Decl{P: prop, V: []int{0}, T: []string{t}})
+		}
+	}
+	if axis != 1 {
+		add("margin-left", ma, false)
+		add("margin-right", mb, false)
+		ds = append(ds, Decl{P: "width", V: []int{0}, T: []string{wTok}})
+	}
+	if axis != 0 {
+		add("margin-top", ma, true)
+		add("margin-bottom", mb, true)
+		ds = append(ds, Decl{P: "height", V: []int{0}, T: []string{hTok}})
+	}
+	in.Rules = []Rule{
+		{Origin: "author", Decls: []Decl{{P: "size", V: []int{sheet[0], sheet[1]}}, {P: "margin", V: []int{20}}, {P: "padding", V: []int{4, 8}}, {P: "mbox", V: []int{0}}}},
+		{Origin: "author", Decls: ds},
+	}
+	for k := 0; k < 10; k++ {
+		in.Items = append(in.Items, Item{Kind: "leaf", ID: fmt.Sprintf("u%d", k), H: 50})
+	}
+	in.buildDoc(noLegacy)
+	return in
+}
+
+// genDims gives a random document declared page-box dimensions: every @page rule gets, with
+// probability 1/2, a `width` and / or a `height` declaration (a length in px on the 8px lattice, a
+// percentage of the sheet, or `auto`, which cancels a less specific declaration), and 35% of the margin
+// values of the document become `auto`, so that the cascade decides, page by page, which of the
+// cases of css-page-3 §5.3 applies (auto dimension, centred, one auto margin, over-constrained).
+func genDims(r *rand.Rand, in *In, scale int) {
+	for ri := range in.Rules {
+		ru := &in.Rules[ri]
+		for di := range ru.Decls {
+			d := &ru.Decls[di]
+			if !strings.HasPrefix(d.P, "margin") {
+				continue
+			}
+			if len(d.T) < len(d.V) {
+				d.T = append(d.T, make([]string, len(d.V)-len(d.T))...)
+			}
+			for q := range d.V {
+				if chance(r, 0.35) {
+					d.T[q] = "auto"
+				}
+			}
+		}
+		if ri > 0 && !chance(r, 0.5) {
+			continue
+		}
+		for _, prop := range []string{"width", "height"} {
+			if !chance(r, 0.6) {
+				continue
+			}
+			d := Decl{P: prop, V: []int{0}, Imp: chance(r, 0.15)}
+			switch x := r.Float64(); {
+			case x < 0.15:
+				d.T = []string{"auto"}
+			case x < 0.4:
+				d.T = []string{pick(r, []string{"40%", "50%", "60%", "75%"})}
+			default:
+				if prop == "width" {
+					d.V[0] = 8 * (11 + r.Intn(12)) * scale // 88..176
+				} else {
+					d.V[0] = 8 * (8 + r.Intn(16)) * scale // 64..184
+				}
+			}
+			// anywhere among the declarations of the rule
+			k := r.Intn(len(ru.Decls) + 1)
+			ru.Decls = append(ru.Decls, Decl{})
+			copy(ru.Decls[k+1:], ru.Decls[k:])
+			ru.Decls[k] = d
+		}
+	}
 }
 
 // genUnits rewrites a part of the @page margin / padding values of a random document in other
@@ -540,6 +653,11 @@ func genRandom(r *rand.Rand) In {
 	in.buildDoc(func() bool { return chance(r, p.legacy) })
 	if !tiny && chance(r, 0.3) {
 		genUnits(r, &in)
+		in.assemble()
+	}
+	// width / height of the page box and auto margins (drawn last of all, same reason)
+	if !tiny && len(in.Rules) > 0 && chance(r, 0.12) {
+		genDims(r, &in, p.scale)
 		in.assemble()
 	}
 	return in
